@@ -13,6 +13,8 @@ Stages
       b_gen2_pairs         : (thorough) pairs of field mutations, capped per document (cap is in RULE / counters).
       c_eq_hash_pairs      : equal => equal hash, ==/!= coherence and symmetry over all pairs of each pool.
       d_qid_order          : total order on the whole qid pool (trichotomy, transitivity, sorted() invariance).
+      f_pickle_cross_process: every hashable hand-built value is pickled AFTER its hash was computed and read in a fresh
+                             interpreter with another PYTHONHASHSEED: equal to, and same hash as, a freshly built equal value.
       e_class_coverage     : union of generated classes vs registered classes (counter + note).
 The instance oracle (function `check_instance`) is shared by all (b) stages; wrappers [x, x], {"k": x} and
 to_json_gzip/read_json_gzip are applied to every instance.
@@ -59,12 +61,13 @@ RULE = ("(a) every stored .json/.repr and .json_inward/.repr_inward pair discove
         "of the menu numbers->{0,1,-1,0.5,2.5,1e-9} (integer-valued fields: ->{0,1,-1,2,3} plus the float menu), booleans "
         "flipped, strings->{'', another string of the document}, list element dropped/duplicated/swapped with its "
         "successor/list reversed, dict field removed (thorough: also all pairs of mutations among the first 12 mutation "
-        "sites of each element, at most 1500 pairs per element); a mutated document that read_json rejects is skipped; "
+        "sites of each element, at most 1500 pairs per element; elements whose stored text exceeds 16000 characters get the core round-trip oracle only); a mutated document that read_json rejects is skipped; "
         "(3) wrappers [x,x], {'k':x}, gzip for every instance.  Oracle per instance x: y=read_json(to_json(x)): y==x, "
         "type(y) is type(x), hash(y)==hash(x), to_json(y)==to_json(x), behaviour probes (unitary, qid shape, qubits, "
         "parameter names, measurement keys, sweep points, records), eval(repr(x))==x, pickle/copy/deepcopy equal with equal "
-        "hash after the source hash was computed; (c) equal=>equal hash over all pairs of each pool; (d) all pairs and "
-        "triples of the qid pool.  non-trivial = the instance serialises to a document containing at least one cirq_type "
+        "hash after the source hash was computed; (c) equal=>equal hash, ==/!= coherence and symmetry over all pairs of each hand-built group (first 4000 values of a group) and of each stored element's pool (original + its first 150 distinct single-mutation values, 30 for big documents); (d) all pairs and "
+        "triples of the qid pool; (f) every hashable hand-built value pickled after hashing and read in a fresh interpreter "
+        "with a different PYTHONHASHSEED.  non-trivial = the instance serialises to a document containing at least one cirq_type "
         "(gen 2: and the mutation changed the constructed value); distinct = distinct case descriptor")
 TECHNIQUE = ("bounded-exhaustive enumeration of the stored document history, of hand-built value alphabets and of the "
              "single/pair field-mutation closure of every stored document against the round-trip / equality / hash / order contracts")
@@ -80,7 +83,14 @@ ASSUMPTIONS = [
     "numpy.array_equal, pandas .equals and sympy structural == are the equality of those payloads",
     "values read from *.json_inward documents are only required to read to the paired *.repr_inward value (legacy read-only formats)",
     "a mutated document that read_json rejects with any exception is a documented rejection (malformed input), not a violation",
-    "repr(x) is required to evaluate back only when it does not have the default '<... object at 0x...>' form",
+    "repr(x) is required to evaluate back only when it claims to be evaluable: it is a Python expression over module-qualified "
+    "names (eval raising SyntaxError/NameError = no claim, counted as repr_not_evaluable_form); numpy/pandas/sympy/datetime "
+    "reprs are foreign and exempt",
+    "generator 2: a value built from a mutated document on which an operation on the value ALONE raises (x==x, hash, repr, "
+    "eval(repr), to_json, protocol probes, comparison raising) violates its class invariants and is skipped "
+    "(constructed_but_broken); wrong ANSWERS (y != x, hash/idempotence/pickle/copy/repr-eval mismatch) are always violations",
+    "generator 2 exemptions: pandas frames/indexes with null or empty payload (dtype is not recoverable), _QubitAsQid whose "
+    "dimension equals the wrapped qubit's (not constructible through with_dimension)",
 ]
 
 REPO = os.path.abspath(os.environ.get("VERIF_REPO", "/repo"))
@@ -99,6 +109,7 @@ EVAL_NS = {
 
 PAIR_SITE_CAP = 12
 PAIR_CASE_CAP = 1500
+BIG_DOC_CHARS = 16000  # elements whose stored text is longer get the core round-trip oracle only (no wrappers/repr/pickle/copies)
 
 
 # ---------------------------------------------------------------------------------------------
@@ -197,6 +208,7 @@ def try_hash(x):
         return None
 
 
+_NOVALUE = object()
 _DEFAULT_REPR = re.compile(r"<[^<>]* object at 0x[0-9a-fA-F]+>")
 _CT = re.compile(r'"cirq_type": "([^"]+)"')
 
@@ -313,18 +325,46 @@ def probes_equal(pa, pb):
 # the instance oracle
 
 
-def check_instance(x, origin, full=True):
-    """Returns (failure message or None, json text, counters).  `origin` is a human-readable provenance string."""
+class BrokenValue(Exception):
+    """A value built from a mutated document fails on its own (before any round trip): x == x, hash(x), repr(x),
+    to_json(x) or a protocol probe raises.  Its constructor accepted arguments that violate the class's invariants,
+    so nothing is demanded of it."""
+
+
+def check_instance(x, origin, full=True, mutated=False):
+    """Returns (failure message or None, json text, counters).  `origin` is a human-readable provenance string.
+
+    mutated=True (generator 2): operations on x ALONE that raise mark x as a broken value (BrokenValue is raised and the
+    case is skipped); everything that relates x to its round trip / copy is still demanded."""
     cnt = {}
 
     def fail(what, extra=""):
         return (f"{what}\n  instance ({origin}): {short(x, 1500)}\n  type: {type(x).__module__}.{type(x).__qualname__}"
                 + (f"\n  {extra}" if extra else "")), None, cnt
 
+    if mutated:
+        if _mutated_exempt(x):
+            raise BrokenValue("exempt")
+        try:
+            if not eq(x, x):
+                raise BrokenValue("x != x")
+            try_hash(x)
+            repr(x)
+            probes(x)
+        except BrokenValue:
+            raise
+        except Exception as e:
+            raise BrokenValue(f"{type(e).__name__}: {e}")
     hx = try_hash(x)
+    if not hasattr(x, "_json_dict_") and type(x).__module__.split(".")[0].startswith("cirq"):
+        # a Cirq value that is not JSON-serializable by design (e.g. CleanQubit): only repr / pickle / copies
+        cnt["not_json_serializable"] = 1
+        return _check_non_json(x, hx, fail, cnt, mutated)
     try:
         text = cirq.to_json(x)
     except Exception as e:
+        if mutated:
+            raise BrokenValue(f"to_json: {type(e).__name__}: {e}")
         return fail(f"to_json raised {type(e).__name__}: {e}")
     try:
         y = cirq.read_json(json_text=text)
@@ -333,6 +373,8 @@ def check_instance(x, origin, full=True):
     try:
         ok = eq(y, x)
     except Exception as e:
+        if mutated:
+            raise BrokenValue(f"y == x: {type(e).__name__}: {e}")
         return fail(f"comparison y == x raised {type(e).__name__}: {e}", f"y: {short(y, 1500)}")
     if not ok:
         return fail("read_json(to_json(x)) != x", f"y: {short(y, 1500)}\n  json: {text[:1500]}")
@@ -378,26 +420,42 @@ def check_instance(x, origin, full=True):
         return fail(f"wrapper round trip raised {type(e).__name__}: {e}")
     cnt["wrappers_checked"] = 3
 
+    return _check_repr_pickle_copy(x, hx, fail, cnt, mutated, text)
+
+
+def _check_non_json(x, hx, fail, cnt, mutated):
+    return _check_repr_pickle_copy(x, hx, fail, cnt, mutated, "")
+
+
+def _check_repr_pickle_copy(x, hx, fail, cnt, mutated, text):
     # repr
-    r = None
     try:
         r = repr(x)
     except Exception as e:
         return fail(f"repr(x) raised {type(e).__name__}: {e}")
     if repr_claims_evaluable(x, r):
+        z = _NOVALUE
         try:
             z = eval(r, dict(EVAL_NS), {})
+        except (SyntaxError, NameError):
+            # not a Python expression / uses unqualified names: the repr does not claim to be evaluable
+            cnt["repr_not_evaluable_form"] = 1
         except Exception as e:
+            if mutated:
+                raise BrokenValue(f"eval(repr): {type(e).__name__}: {e}")
             return fail(f"eval(repr(x)) raised {type(e).__name__}: {e}", f"repr: {r[:1500]}")
-        try:
-            ok = eq(z, x) and eq(x, z)
-        except Exception as e:
-            return fail(f"eval(repr(x)) == x raised {type(e).__name__}: {e}", f"repr: {r[:1500]}")
-        if not ok:
-            return fail("eval(repr(x)) != x", f"repr: {r[:1500]}\n  evaluated: {short(z, 800)}")
-        if hx is not None and _type_demanded(x) and type(z) is type(x) and try_hash(z) != hx:
-            return fail("eval(repr(x)) == x but the hashes differ", f"repr: {r[:1500]}")
-        cnt["repr_checked"] = 1
+        if z is not _NOVALUE:
+            try:
+                ok = eq(z, x) and eq(x, z)
+            except Exception as e:
+                if mutated:
+                    raise BrokenValue(f"eval(repr) ==: {type(e).__name__}: {e}")
+                return fail(f"eval(repr(x)) == x raised {type(e).__name__}: {e}", f"repr: {r[:1500]}")
+            if not ok:
+                return fail("eval(repr(x)) != x", f"repr: {r[:1500]}\n  evaluated: {short(z, 800)}")
+            if hx is not None and _type_demanded(x) and type(z) is type(x) and try_hash(z) != hx:
+                return fail("eval(repr(x)) == x but the hashes differ", f"repr: {r[:1500]}")
+            cnt["repr_checked"] = 1
     else:
         cnt["repr_not_evaluable_form"] = 1
 
@@ -460,8 +518,8 @@ def repr_claims_evaluable(x, r):
     """A repr claims to be evaluable unless it has the default `<... object at 0x...>` form somewhere in it."""
     if _DEFAULT_REPR.search(r):
         return False
-    if isinstance(x, (pd.DataFrame, pd.Index, np.ndarray, np.generic, datetime.datetime)):
-        return False  # foreign reprs (numpy / pandas print abbreviated text)
+    if isinstance(x, (pd.DataFrame, pd.Index, np.ndarray, np.generic, datetime.datetime, sympy.Basic)):
+        return False  # foreign reprs (numpy / pandas / sympy print text that is not meant to be evaluated)
     if isinstance(x, (list, tuple, dict)):
         return False  # containers of foreign values; their elements are checked on their own
     return True
@@ -469,6 +527,31 @@ def repr_claims_evaluable(x, r):
 
 def _pickle_exempt(x, e):
     return False
+
+
+def _mutated_exempt(x):
+    """Values reachable only through a mutated document that are outside the statement (see ASSUMPTIONS)."""
+    if isinstance(x, (pd.DataFrame, pd.Index)):
+        try:
+            if isinstance(x, pd.DataFrame):
+                return bool(x.isnull().values.any()) or x.shape[0] == 0 or x.shape[1] == 0
+            return bool(x.isnull().any()) or len(x) == 0
+        except Exception:
+            return True
+    for q in _qids_of(x):
+        if type(q).__name__ == "_QubitAsQid" and q.dimension == q.qubit.dimension:
+            return True
+    return False
+
+
+def _qids_of(x):
+    if isinstance(x, cirq.Qid):
+        return [x]
+    if isinstance(x, (cirq.Operation, cirq.Moment)):
+        return list(x.qubits)
+    if isinstance(x, cirq.AbstractCircuit):
+        return list(x.all_qubits())
+    return []
 
 
 # ---------------------------------------------------------------------------------------------
@@ -574,6 +657,15 @@ def unit_raw(unit):
     stem, i = unit
     raw = raw_doc(stem)
     return raw if i < 0 else raw[i]
+
+
+_BIG = {}
+
+
+def unit_is_big(unit):
+    if unit not in _BIG:
+        _BIG[unit] = len(json.dumps(unit_raw(unit))) > BIG_DOC_CHARS
+    return _BIG[unit]
 
 
 def run_corpus_roundtrip(case):
@@ -751,7 +843,10 @@ def run_gen2_single(case):
     if not ok:
         return Res(skipped=True, nontrivial=False, counters={"rejected_" + type(x).__name__: 1})
     origin = f"{stem}.json element {ei} with field {'/'.join(map(str, path)) or '<root>'} mutated by {op} {arg!r}"
-    msg, text, cnt = check_instance(x, origin)
+    try:
+        msg, text, cnt = check_instance(x, origin, mutated=True, full=not unit_is_big(unit))
+    except BrokenValue:
+        return Res(skipped=True, nontrivial=False, counters={"constructed_but_broken": 1})
     if msg:
         return bad(msg + f"\n  mutated document: {json.dumps(doc)[:1500]}", kind="gen2_single", doc=os.path.basename(stem),
                    what=msg.split("\n")[0][:60])
@@ -798,12 +893,363 @@ def run_gen2_pair(case):
         return Res(skipped=True, nontrivial=False, counters={"rejected_" + type(x).__name__: 1})
     origin = (f"{stem}.json element {ei} with fields {'/'.join(map(str, pa))} ({opa} {arga!r}) and "
               f"{'/'.join(map(str, pb))} ({opb} {argb!r}) mutated")
-    msg, text, cnt = check_instance(x, origin, full=True)
+    try:
+        msg, text, cnt = check_instance(x, origin, mutated=True, full=not unit_is_big(unit))
+    except BrokenValue:
+        return Res(skipped=True, nontrivial=False, counters={"constructed_but_broken": 1})
     if msg:
         return bad(msg + f"\n  mutated document: {json.dumps(doc)[:1500]}", kind="gen2_pair", doc=os.path.basename(stem),
                    what=msg.split("\n")[0][:60])
     changed = text != _base_text(unit)
     return good(nontrivial=bool(changed and cirq_types_in(text)), constructed=1, changed_value=int(changed), **cnt)
+
+
+# ---------------------------------------------------------------------------------------------
+# generator 1: hand-built alphabets (mc/ref/c11_pool.py)
+
+_POOLS = {}
+
+
+def pool(tier, seed):
+    key = (tier, seed)
+    if key not in _POOLS:
+        from mc.ref import c11_pool
+        _POOLS[key] = c11_pool.build(tier, seed)
+    return _POOLS[key]
+
+
+_CUR_POOL = None
+
+
+def run_gen1(case):
+    group, idx = case
+    label, x = _CUR_POOL[group][idx]
+    msg, text, cnt = check_instance(x, f"hand-built {group}[{idx}] {label}")
+    if msg:
+        try:
+            seen = {"cls:" + t: 1 for t in cirq_types_in(cirq.to_json(x))}
+        except Exception:
+            seen = {}
+        return Res(ok=False, msg=msg, counters=seen,
+                   sig={"kind": "gen1", "group": group, "cls": type(x).__name__, "what": msg.split("\n")[0][:60]})
+    types = cirq_types_in(text) if text else set()
+    return good(nontrivial=bool(types) or "not_json_serializable" in cnt, **cnt, **{"cls:" + t: 1 for t in types})
+
+
+# ---------------------------------------------------------------------------------------------
+# (c) equal => equal hash, ==/!= coherence, symmetry over all pairs of each pool
+
+
+def _pair_check(a, b, la, lb, lenient):
+    """Returns (message or None, equal flag or None)."""
+    try:
+        ab = a == b
+        ba = b == a
+        nab = a != b
+    except Exception as e:
+        if lenient:
+            return None, None
+        return f"comparison raised {type(e).__name__}: {e}\n  a ({la}): {short(a)}\n  b ({lb}): {short(b)}", None
+    for r in (ab, ba, nab):
+        if not isinstance(r, (bool, np.bool_)):
+            return None, None  # array-valued comparisons (raw numpy / pandas payloads) are not part of this stage
+    if bool(ab) != bool(ba):
+        return f"asymmetric equality: a == b is {ab} but b == a is {ba}\n  a ({la}): {short(a)}\n  b ({lb}): {short(b)}", None
+    if bool(nab) == bool(ab):
+        return f"a == b is {ab} and a != b is {nab}\n  a ({la}): {short(a)}\n  b ({lb}): {short(b)}", None
+    if ab:
+        try:
+            ha, hb = hash(a), hash(b)
+        except TypeError:
+            return None, True
+        except Exception as e:
+            if lenient:
+                return None, True
+            return f"hash raised {type(e).__name__}: {e}\n  a ({la}): {short(a)}", True
+        if ha != hb:
+            return (f"a == b but hash(a)={ha} != hash(b)={hb}\n  a ({la}): {short(a)}\n  type {type(a).__name__}"
+                    f"\n  b ({lb}): {short(b)}\n  type {type(b).__name__}"), True
+    return None, bool(ab)
+
+
+def run_eq_hash_gen1(case):
+    group, i = case
+    items = _CUR_POOL[group]
+    la, a = items[i]
+    n_eq = 0
+    n = 0
+    for j in range(i, min(len(items), EQ_GROUP_CAP)):
+        lb, b = items[j]
+        msg, e = _pair_check(a, b, la, lb, lenient=False)
+        if msg:
+            return bad(msg, kind="eq_hash_gen1", group=group, cls=type(a).__name__)
+        if e is not None:
+            n += 1
+            n_eq += int(bool(e) and j != i)
+    return good(nontrivial=n > 1, pairs=n, equal_pairs=n_eq)
+
+
+EQ_GROUP_CAP = 4000   # all pairs among the first 4000 values of a hand-built group (only the thorough tableau group is larger)
+EQ_POOL_CAP = 150
+EQ_POOL_CAP_BIG = 30
+
+
+def unit_pool(unit):
+    """Original value + every distinct value constructed by a single-field mutation (capped, order of the mutation list)."""
+    raw = unit_raw(unit)
+    cap = EQ_POOL_CAP_BIG if unit_is_big(unit) else EQ_POOL_CAP
+    sites, muts = unit_mutations(unit)
+    out = []
+    seen = set()
+    ok, x0 = _read_mutated(raw)
+    if ok:
+        out.append(("original", x0))
+    total = 0
+    beyond = 0
+    for mi, (si, op, arg) in enumerate(muts):
+        if len(out) >= cap:
+            beyond = len(muts) - mi
+            break
+        path, _kind = sites[si]
+        ok, x = _read_mutated(apply_mutation(raw, path, op, arg))
+        if not ok:
+            continue
+        try:
+            t = cirq.to_json(x)
+        except Exception:
+            continue
+        if t in seen:
+            continue
+        seen.add(t)
+        total += 1
+        if len(out) < cap:
+            out.append((f"mutation {mi}: {'/'.join(map(str, path))} {op} {arg!r}", x))
+    return out, beyond
+
+
+def run_eq_hash_gen2(case):
+    stem, ei = case
+    items, total = unit_pool((stem, ei))
+    n = n_eq = 0
+    for i in range(len(items)):
+        la, a = items[i]
+        for j in range(i, len(items)):
+            lb, b = items[j]
+            msg, e = _pair_check(a, b, la, lb, lenient=True)
+            if msg:
+                return bad(f"{stem}.json element {ei}: " + msg, kind="eq_hash_gen2", doc=os.path.basename(stem))
+            if e is not None:
+                n += 1
+                n_eq += int(bool(e) and j != i)
+    return good(nontrivial=len(items) > 1, pairs=n, equal_pairs=n_eq, pool_values=len(items),
+                mutations_beyond_pool_cap=total)
+
+
+# ---------------------------------------------------------------------------------------------
+# (d) qid ordering
+
+_QIDS = None
+
+
+def qid_list():
+    return [x for _l, x in _CUR_POOL["qids"] if isinstance(x, cirq.Qid)]
+
+
+def _cmp_row(qs, i):
+    a = qs[i]
+    row = []
+    for b in qs:
+        row.append((bool(a < b), bool(a == b), bool(a > b), bool(a <= b), bool(a >= b), bool(a != b)))
+    return row
+
+
+N_SORT_PERMS = 12
+
+
+def run_qid_order(case):
+    kind, k = case
+    qs = qid_list()
+    n = len(qs)
+    if kind == "row":
+        a = qs[k]
+        for j, b in enumerate(qs):
+            lt, e, gt, le, ge, ne = _cmp_row([a, b], 0)[1]
+            desc = f"a={a!r} ({type(a).__name__}, dim {a.dimension}), b={b!r} ({type(b).__name__}, dim {b.dimension})"
+            if lt + e + gt != 1:
+                return bad(f"not exactly one of <, ==, > holds: a<b={lt} a==b={e} a>b={gt}; {desc}", kind="qid_trichotomy")
+            if le != (lt or e) or ge != (gt or e) or ne != (not e):
+                return bad(f"<=, >=, != incoherent: <{lt} =={e} >{gt} <={le} >={ge} !={ne}; {desc}", kind="qid_coherence")
+            if bool(b > a) != lt or bool(b < a) != gt or bool(b == a) != e:
+                return bad(f"a<b={lt}, a>b={gt}, a==b={e} but b>a={b > a}, b<a={b < a}, b==a={b == a}; {desc}",
+                           kind="qid_antisymmetry")
+            if e and hash(a) != hash(b):
+                return bad(f"equal qids with different hashes; {desc}", kind="qid_hash")
+        return good(nontrivial=n > 1, pairs=n)
+    if kind == "transitivity":
+        lt = np.zeros((n, n), dtype=np.int64)
+        eqm = np.zeros((n, n), dtype=np.int64)
+        for i in range(n):
+            for j in range(n):
+                lt[i, j] = bool(qs[i] < qs[j])
+                eqm[i, j] = bool(qs[i] == qs[j])
+        le = ((lt + eqm) > 0).astype(np.int64)
+        for name, m1, m2, tgt in (("a<b, b<c but not a<c", lt, lt, lt), ("a<=b, b<=c but not a<=c", le, le, le),
+                                  ("a==b, b==c but not a==c", eqm, eqm, eqm), ("a==b, b<c but not a<c", eqm, lt, lt),
+                                  ("a<b, b==c but not a<c", lt, eqm, lt)):
+            viol = ((m1 @ m2) > 0) & (tgt == 0)
+            if viol.any():
+                i, c = [int(v) for v in np.argwhere(viol)[0]]
+                j = int(np.argmax(m1[i] * m2[:, c]))
+                return bad(f"order not transitive ({name}): a={qs[i]!r} (dim {qs[i].dimension}), b={qs[j]!r} "
+                           f"(dim {qs[j].dimension}), c={qs[c]!r} (dim {qs[c].dimension})", kind="qid_transitivity")
+        return good(nontrivial=True, triples=n ** 3)
+    if kind == "sorted":
+        base = sorted(qs)
+        for i in range(len(base) - 1):
+            if base[i] > base[i + 1]:
+                return bad(f"sorted() output is not ascending: {base[i]!r} > {base[i + 1]!r}", kind="qid_sorted")
+        if k == 0:
+            perm = list(reversed(qs))
+        elif k == 1:
+            perm = qs[::2] + qs[1::2]
+        elif k == 2:
+            perm = sorted(qs, key=repr)
+        elif k == 3:
+            perm = sorted(qs, key=lambda q: (hash(q), repr(q)))
+        elif k == 4:
+            perm = list(reversed(base))
+        else:
+            r = (k - 4) * max(1, n // (N_SORT_PERMS - 4))
+            perm = qs[r % n:] + qs[: r % n]
+        got = sorted(perm)
+        for i, (u, v) in enumerate(zip(base, got)):
+            if not (u == v):
+                return bad(f"sorted() depends on the input order (permutation {k}): position {i} is {u!r} (dim {u.dimension}) "
+                           f"vs {v!r} (dim {v.dimension})", kind="qid_sorted")
+        return good(nontrivial=True, sorted_len=n)
+    raise core.HarnessError(f"unknown qid case {case}")
+
+
+# ---------------------------------------------------------------------------------------------
+# (f) pickles read in ANOTHER interpreter (different string-hash seed): a hash cached by the writer must not survive
+
+_CHILD = r"""
+import pickle, sys
+import cirq, cirq_google, cirq_ionq, cirq_aqt, cirq_pasqal, cirq.contrib.json
+items = pickle.load(open(sys.argv[1], 'rb'))
+bad = []
+for idx, obj in items:
+    try:
+        fresh = cirq.read_json(json_text=cirq.to_json(obj))
+        if not (obj == fresh and fresh == obj):
+            bad.append((idx, 'unpickled value != its fresh JSON round trip'))
+        elif hash(obj) != hash(fresh):
+            bad.append((idx, 'hash(unpickled)=%d != hash(fresh equal value)=%d' % (hash(obj), hash(fresh))))
+    except Exception as e:
+        bad.append((idx, 'raised %s: %s' % (type(e).__name__, e)))
+pickle.dump(bad, open(sys.argv[2], 'wb'))
+"""
+
+
+XP_BUNDLES = [["gates"], ["tableaux", "qids", "values"], ["ops", "paulis", "circuits", "sweeps"],
+              ["results", "gatesets", "noise_devices", "google_workflow"]]
+
+
+def run_pickle_cross_process(case):
+    import subprocess
+    import sys
+    import tempfile
+    bundle, half = case
+    payload = []
+    all_items = [(g, i) for g in XP_BUNDLES[bundle] for i in range(len(_CUR_POOL.get(g, ())))][half::2]
+    for pos, (g, i) in enumerate(all_items):
+        _label, x = _CUR_POOL[g][i]
+        idx = pos
+        if not hasattr(x, "_json_dict_") or try_hash(x) is None:
+            continue
+        try:
+            hash(x)            # make sure every cache of the writer is filled
+            x == x
+            pickle.dumps(x)
+            y = cirq.read_json(json_text=cirq.to_json(x))
+            if not (y == x) or hash(y) != hash(x):
+                continue       # reported by b_gen1_handbuilt
+        except Exception:
+            continue           # reported by b_gen1_handbuilt
+        payload.append((idx, x))
+    if not payload:
+        return good(nontrivial=False)
+    with tempfile.TemporaryDirectory() as d:
+        fin, fout = os.path.join(d, "in.pkl"), os.path.join(d, "out.pkl")
+        with open(fin, "wb") as f:
+            pickle.dump(payload, f)
+        env = dict(os.environ)
+        env["PYTHONHASHSEED"] = "4242"
+        p = subprocess.run([sys.executable, "-c", _CHILD, fin, fout], env=env, capture_output=True, text=True)
+        if p.returncode != 0 or not os.path.exists(fout):
+            return bad(f"reading the pickles of bundle {bundle} in a fresh interpreter failed:\n{p.stderr[-1500:]}",
+                       kind="pickle_cross_process", group=str(bundle))
+        with open(fout, "rb") as f:
+            res = pickle.load(f)
+    if res:
+        idx, why = res[0]
+        group, gi = all_items[idx]
+        label, x = _CUR_POOL[group][gi]
+        idx = gi
+        return bad(f"pickle written after hash(x) was computed, read in an interpreter with another PYTHONHASHSEED: {why}\n"
+                   f"  instance (hand-built {group}[{idx}] {label}): {short(x, 800)}\n  type: {type(x).__name__}"
+                   f"\n  ({len(res)} of {len(payload)} instances of this part fail)",
+                   kind="pickle_cross_process", group=group, cls=type(x).__name__)
+    return good(nontrivial=True, cross_process_pickles=len(payload))
+
+
+# ---------------------------------------------------------------------------------------------
+# (e) class coverage
+
+
+def registered_names():
+    from cirq.json_resolver_cache import _class_resolver_dictionary as d0
+    from cirq.contrib.json import _class_resolver_dictionary as d1
+    from cirq_google.json_resolver_cache import _class_resolver_dictionary as d2
+    from cirq_ionq.json_resolver_cache import _class_resolver_dictionary as d3
+    from cirq_aqt.json_resolver_cache import _class_resolver_dictionary as d4
+    from cirq_pasqal.json_resolver_cache import _class_resolver_dictionary as d5
+    names = {}
+    for d in (d0, d1, d2, d3, d4, d5):
+        for k, v in d().items():
+            names[k] = isinstance(v, type)
+    return names
+
+
+def exec_class_coverage():
+    r = core.StageResult("e_class_coverage")
+    names = registered_names()
+    gen = set()
+    for st, table in _CLS.items():
+        if st.startswith("b_gen"):
+            gen |= set(table)
+    stored = set(_CLS.get("b_corpus_roundtrip", {}))
+    reg = set(names)
+    residual = sorted(reg - gen)
+    r.evaluations = len(reg)
+    r.distinct_nontrivial_extra = len(reg & gen)
+    r.counters = {
+        "registered_names": len(reg),
+        "registered_classes": sum(1 for v in names.values() if v),
+        "classes_with_generated_instances": len(reg & gen),
+        "classes_with_stored_instances": len(reg & stored),
+        "residual_without_generated_instance": len(residual),
+    }
+    legacy = [k for k in residual if not names[k]]
+    r.note = ("generated = written by to_json for an instance of generator 1 or 2; residual (" + str(len(residual)) + "): "
+              + ", ".join(residual) + " | of these, read-only factory names (legacy formats, never written): "
+              + ", ".join(legacy))
+    r.samples = residual[:3]
+    return r
+
+
+def replay_class_coverage(case):
+    return None
 
 
 # ---------------------------------------------------------------------------------------------
@@ -829,21 +1275,33 @@ class RecordingStage(CaseStage):
 
 
 def stages(tier: str, seed: int):
+    global _CUR_POOL
     thorough = tier == "thorough"
     sts = []
     prs = pairs()
     sts.append(CaseStage("a_corpus_reads", [(s, i) for s, i, _hj, _hr in prs], run_corpus_read))
     us = units()
     sts.append(RecordingStage("b_corpus_roundtrip", [(s, i) for s, i in us], run_corpus_roundtrip))
+    _CUR_POOL = pool(tier, seed)
+    gen1 = [(g, i) for g, items in _CUR_POOL.items() for i in range(len(items))]
+    sts.append(RecordingStage("b_gen1_handbuilt", gen1, run_gen1, chunk=40))
     single = []
     for u in us:
         _sites, muts = unit_mutations(u)
         single.extend((u[0], u[1], mi) for mi in range(len(muts)))
-    sts.append(RecordingStage("b_gen2_single", single, run_gen2_single))
+    sts.append(RecordingStage("b_gen2_single", single, run_gen2_single, chunk=60))
     if thorough:
         prs2 = []
         for u in us:
             cases, _total = unit_pair_cases(u)
             prs2.extend((u[0], u[1], a, b) for a, b in cases)
-        sts.append(RecordingStage("b_gen2_pairs", prs2, run_gen2_pair))
+        sts.append(RecordingStage("b_gen2_pairs", prs2, run_gen2_pair, chunk=100))
+    eqc = [(g, i) for g, items in _CUR_POOL.items() if g != "raw" for i in range(min(len(items), EQ_GROUP_CAP))]
+    sts.append(CaseStage("c_eq_hash_pairs_gen1", eqc, run_eq_hash_gen1, chunk=25))
+    sts.append(CaseStage("c_eq_hash_pairs_gen2", [(s, i) for s, i in us], run_eq_hash_gen2, chunk=2))
+    nq = len(qid_list())
+    qc = [("row", i) for i in range(nq)] + [("transitivity", 0)] + [("sorted", k) for k in range(N_SORT_PERMS)]
+    sts.append(CaseStage("d_qid_order", qc, run_qid_order))
+    sts.append(CaseStage("f_pickle_cross_process", [(b, h) for b in range(len(XP_BUNDLES)) for h in (0, 1)], run_pickle_cross_process, chunk=1))
+    sts.append(CustomStage("e_class_coverage", exec_class_coverage, replay_class_coverage))
     return sts
